@@ -13,3 +13,72 @@ Inductive dstmt :=
 | AugAdd (p : string) (c : cname)
 | Rebind (p : string) (c : cname)
 | ReturnCall (ps : list string).
+
+(* ---------- store-site table (translator/stores.py) ---------- *)
+Inductive sroot := RSelf | RLocal | RCaller.
+Record store_site := mkSite {
+  s_file : string; s_func : string; s_line : nat; s_kind : string; s_root : string; s_class : sroot }.
+
+Definition is_caller_store (s : store_site) : bool :=
+  match s_class s with RCaller => true | _ => false end.
+
+(* ---------- semantics of the decorator's effect programs ----------
+   A store is a list of array buffers; a parameter is bound to a *reference* (index) into the
+   store, as numpy arrays are.  [AugAdd] writes through the reference (numpy `x += c`);
+   [Rebind] allocates a fresh buffer and rebinds the local name (`x = x + c`). *)
+From Coq Require Import QArith.
+
+Definition buffer := list Q.
+Definition store := list buffer.
+Definition env := list (string * nat).
+
+Fixpoint lookup (e : env) (p : string) : option nat :=
+  match e with
+  | nil => None
+  | (k, r) :: t => if String.eqb p k then Some r else lookup t p
+  end.
+
+Fixpoint rebind (e : env) (p : string) (r : nat) : env :=
+  match e with
+  | nil => nil
+  | (k, r0) :: t => if String.eqb p k then (k, r) :: t else (k, r0) :: rebind t p r
+  end.
+
+Fixpoint set_buf (st : store) (i : nat) (b : buffer) : store :=
+  match st, i with
+  | nil, _ => nil
+  | _ :: t, O => b :: t
+  | x :: t, S j => x :: set_buf t j b
+  end.
+
+Definition shiftq (c : Q) (b : buffer) : buffer := map (fun v => Qplus v c) b.
+
+Section Exec.
+  Variable cval : cname -> Q.                       (* value of c.EPSILON etc. *)
+  Variable callee : list buffer -> Q.                (* the wrapped (store-free) metric body *)
+
+  (* runs the wrapper body; returns the final store and the returned value (if a ReturnCall was reached) *)
+  Fixpoint exec (prog : list dstmt) (e : env) (st : store) : store * option Q :=
+    match prog with
+    | nil => (st, None)
+    | AugAdd p c :: rest =>
+        match lookup e p with
+        | Some r => exec rest e (set_buf st r (shiftq (cval c) (nth r st nil)))
+        | None => (st, None)
+        end
+    | Rebind p c :: rest =>
+        match lookup e p with
+        | Some r => exec rest (rebind e p (length st)) (st ++ (shiftq (cval c) (nth r st nil) :: nil))
+        | None => (st, None)
+        end
+    | ReturnCall ps :: _ =>
+        (st, Some (callee (map (fun p => match lookup e p with Some r => nth r st nil | None => nil end) ps)))
+    end.
+
+  (* a call of a decorated metric: the caller owns buffers [st]; arguments are references into it *)
+  Definition call_metric (params : list string) (prog : list dstmt) (st : store) (args : list nat)
+    : store * option Q := exec prog (combine params args) st.
+End Exec.
+
+Definition no_augadd (prog : list dstmt) : bool :=
+  forallb (fun s => match s with AugAdd _ _ => false | _ => true end) prog.
